@@ -4,14 +4,23 @@ from props import COMMON_TRUST
 def pool_nontrivial(tok, res):
     if tok[0] in ("offer", "user", "expire", "end", "release", "child", "mxclose", "mxaccept", "mxconn",
                   "newproxy", "closeproxy", "vlput", "vlaccept", "vpconn", "vprelease", "vpclose",
-                  "gpconn", "gpaccept", "gpclose"):
+                  "gpconn", "gpaccept", "gpclose", "squsers", "sqoffer", "sqping", "sqresume", "sqend"):
         return True
-    if tok[0] == "login":
+    if tok[0] in ("login", "sqlogin"):
         return res.startswith("ok:")
     return tok[0] in ("kill", "close") and res != "-"
 
 
 def pool_class(r):
+    if r.startswith("S:") and r[2:3].isdigit():
+        k = r[2:].split(";")[0].split(":")[0]
+        return "parked:" + ("0" if k == "0" else "n") + (";resumed" if ";r=" in r else "")
+    if r.startswith("w=") and ";b=" in r:
+        w, u, b = r.split(";")
+        clean = w.endswith("/0") and u.endswith("/0")
+        return "endcensus:" + ("clean" if clean else "open") + (":bridged" if b != "b=0" else "")
+    if r.startswith("P:"):
+        return "P:n"
     if r.startswith("B:") or r.startswith("S:"):
         return r[:1] + ":" + r.split(":")[-1]
     if r.startswith("w="):
@@ -77,9 +86,24 @@ PROP = {
             "Frp.C11.GA.inv_reach",
             "Frp.C11.group_none_stranded",
             "Frp.C11.group_worker_holds_one",
+            "Frp.C11.SP.inv_step",
+            "Frp.C11.SP.inv_reach",
+            "Frp.C11.send_queue_bounded",
+            "Frp.C11.send_eof_only_after_done",
+            "Frp.C11.send_eof_closes_user",
+            "Frp.C11.parked_blocked_iff",
+            "Frp.C11.blocked_sender_released_on_end",
+            "Frp.C11.release_persistent",
+            "Frp.C11.releasedOnEnd_select",
+            "Frp.C11.ended_quiescent_none_parked",
+            "Frp.C11.plainSend_strand_stable",
+            "Frp.C11.plainSend_stranded_forever",
+            "Frp.C11.plainSend_strand_witness",
+            "Frp.C11.plainSend_strand_witness_100",
+            "Frp.C11.releasedOnEnd_plainSend_false",
         ],
         "engines": [
-            {"name": "pool", "quick_n": 1100, "thorough_n": 5000, "thorough_seeds": 4,
+            {"name": "pool", "quick_n": 1180, "thorough_n": 5000, "thorough_seeds": 4,
              "nontrivial": pool_nontrivial, "result_class": pool_class},
         ],
         "rule": "pool engine: a real frps (server.NewService, UserConnTimeout 1 s, generated MaxPoolCount) with a scripted "
@@ -99,12 +123,23 @@ PROP = {
                 "a real visitor.Manager whose accept goroutine is stalled (RemoteAddr of the accepted connection blocks) "
                 "while visitor connections queue up and the proxy is closed or released; a real TCPGroupCtl whose member "
                 "accept loops are the harness (users in the worker's hand and in the kernel queue when the last member "
-                "leaves). Non-trivial = every offer, user, expiry, census, child, proxy, muxer, listener, visitor, group "
-                "op and successful login; distinct = distinct (op line, result)",
+                "leaves); a session whose control connection is a transport the harness owns (handed to frps through its "
+                "internal listener): work connections pooled first in some episodes, the client stops reading, Pings and "
+                "users in numbers around what the writer and the 100-slot queue still take (handlers parked inside "
+                "Dispatcher.Send — before the wait on an empty pool, or holding a pooled connection at the replacement "
+                "request — counted off the goroutine dump), the client reads again (all drained, every ReqWorkConn "
+                "arrives) or the session ends (reads fail with the writes still blocked / client gone) and ALL its user "
+                "connections must be closed or bridged to a started work connection, every other work connection closed. "
+                "Non-trivial = every offer, user, expiry, census, child, proxy, muxer, listener, visitor, group, "
+                "send-path op and successful login; distinct = distinct (op line, result)",
         "trusted": COMMON_TRUST + [
             "model Frp/Model/Pool.lean (Pool + Handoff + VListen + GroupAccept) written by hand from server/control.go, "
             "service.go, proxy/proxy.go, pkg/util/vhost/vhost.go, pkg/util/net/listener.go, server/visitor/visitor.go, "
-            "server/group/tcp.go; tied by the pool engine",
+            "server/group/tcp.go; model Frp/Model/SendPath.lean (Dispatcher.Send / sendLoop / session end with parked "
+            "senders) written by hand from pkg/msg/handler.go and server/control.go; tied by the pool engine",
+            "send-path ops: the gate transport is harness code (a net.Conn whose Write blocks while the client is "
+            "stalled); the number of handlers inside msg.(*Dispatcher).Send and whether every handler is at rest are read "
+            "from runtime.Stack (frame names handleUserTCPConnection / Dispatcher.Send / Control.Start.func1)",
             "verifhook gates worker.dispDone / worker.drained (tag verif, /repo 75a0848) perturb timing only",
             "yamux semantics used by the engine: frames of one session are processed in order (the round trip after "
             "`kill`); for a pooled connection the client has closed BOTH outcomes of the StartWorkConn write are accepted "
@@ -126,6 +161,11 @@ PROP = {
             "(GroupAccept) and driven on the real TCPGroupCtl; the join/leave protocol with its locks is C13's; "
             "TCPMuxGroup has the same shape and is not driven; visitor listeners: InternalListener + visitor.Manager + "
             "the accept loop (VListen), stcp driven, sudp/xtcp share the code path",
+            "send path: a handler parked in Dispatcher.Send behind a client that does not read stays there as long as the "
+            "session lives (until the heartbeat timeout ends it) — that wait is NOT bounded by UserConnTimeout on the "
+            "unchanged tree and is not judged; what is proved and checked is the release at session end.  The read "
+            "loop's own Send (Pong, NewProxyResp) parking on a full queue is dispatcher starvation (C14) and is neither "
+            "generated nor compared (skip)",
             "advance requests: `Start()`'s burst is modelled as sent at once (it runs in a goroutine); the accounting "
             "reqs = advance + user-driven is exact while the dispatcher lives",
         ],
@@ -135,7 +175,8 @@ META = {
         "engine": "lean+harness(pool)",
         "design_ref": "DESIGN.md §6 C11, Appendix A.2, §7 #4 #10 #11",
         "technique": "Lean 4 small-step model of one session's work-connection pool (channel, handlers, proxy map, teardown, "
-                     "clock), of the vhost hand-off, of the visitor listener with its accept loop and of the group hand-off; "
+                     "clock), of the vhost hand-off, of the visitor listener with its accept loop, of the group hand-off and of "
+                     "the control-message send path with parked senders; "
                      "a 10-clause invariant proved inductive over all 18 labels plus a request-accounting invariant, "
                      "inductive invariants for the two accept-path models, consequences for every reachable state; kernel-checked witness schedules for the three defects of the pinned "
                      "tree and full theorems for the repaired model behind the switch Pool.current; differential "
@@ -153,7 +194,13 @@ META = {
                 "advance requests stay max 0 (min client server) and every other ReqWorkConn belongs to a user connection; "
                 "for all interleavings of put / accept / close on a visitor listener nothing is queued once the accept loop "
                 "has ended (each connection accepted or closed) and after Close the loop returns every queued connection "
-                "before it ends; when the last member of a group has left, every user connection was delivered or closed. "
+                "before it ends; when the last member of a group has left, every user connection was delivered or closed; "
+                "the control-message send path (Dispatcher.Send / sendLoop, 100-slot queue, client that stops reading): "
+                "Send returns io.EOF only after the session ended, a handler is blocked in Send exactly when the queue is "
+                "full and the session lives, and once the session has ended the doneCh arm of every parked handler is "
+                "ready and stays ready under every other action (for all interleavings of senders, send loop, write, "
+                "read failure, conn.Close) — whereas for a plain `sendCh <- m` after a doneCh check a kernel-checked "
+                "schedule (queue 100) leaves a handler parked under every continuation. "
                 "False on the pinned tree, with kernel-checked witnesses reproduced on the real code: a work connection "
                 "sent into the already closed pool is neither pooled nor closed (limbo); Login.PoolCount < 0 kills frps "
                 "(< -10 at login, -10..-1 at the first user connection); a connection being handed to a vhost listener "
